@@ -162,6 +162,29 @@ def cellToChildren (h : BitVec 64) (childRes : Int) : List (BitVec 64) :=
   | .ok n => childrenFuel (iterInitParent h childRes) n.toNat
   | .error _ => []
 
+/-- `iterInitBaseCellNum` -/
+def iterInitBaseCellNum (bc : Int) (childRes : Int) : IterChildren :=
+  if bc < 0 || bc >= 122 || childRes < 0 || childRes > 15 then nullIter
+  else iterInitParent (setH3Index 0 bc.toNat 0) childRes
+
+/-- all cells produced by `for (it = iterInitRes(res); it.h; iterStepRes(&it))`, in order:
+base cell after base cell, each through the child iterator -/
+def cellsEnum (res : Nat) : List (BitVec 64) :=
+  (List.range 122).flatMap fun (bc : Nat) =>
+    let it := iterInitBaseCellNum (bc : Int) (res : Int)
+    match cellToChildrenSize (setH3Index 0 bc 0) (res : Int) with
+    | .ok n => childrenFuel it n.toNat
+    | .error _ => []
+
+/-- `getPentagons` -/
+def getPentagons (res : Int) : R (List (BitVec 64)) :=
+  if res < 0 || res > 15 then .error .resDomain
+  else .ok (((List.range 122).filter isBaseCellPentagon).map fun bc => setH3Index res.toNat bc 0)
+
+/-- `getRes0Cells` -/
+def getRes0Cells : List (BitVec 64) :=
+  (List.range 122).map fun bc => setBaseCell (setMode H3_INIT 1) bc
+
 /-! ### child positions -/
 
 def validateChildPos (childPos : Int) (parent : BitVec 64) (childRes : Int) : R Unit :=
